@@ -15,6 +15,7 @@ package shachain
 //@
 //@ func getBit
 //@   props C06
+//@   bounds-safe
 //@   requires position < 64
 //@   ensures  result == bitAt(index, position)
 //@   modifies nothing
@@ -22,6 +23,7 @@ package shachain
 //@
 //@ func getPrefix
 //@   props C06
+//@   bounds-safe
 //@   uses clearLow(index, position)
 //@   requires position <= 48
 //@   ensures  result == index - index % (1 << position)
@@ -30,6 +32,7 @@ package shachain
 //@
 //@ func countTrailingZeros
 //@   props C06
+//@   bounds-safe
 //@   ensures result <= 48
 //@   ensures index % (1 << result) == 0
 //@   ensures result < 48 ==> bitAt(index, result) == 1
@@ -39,6 +42,7 @@ package shachain
 //@
 //@ func newIndex
 //@   props C06
+//@   bounds-safe
 //@   requires v < 1<<48
 //@   ensures  result == (1<<48) - 1 - v
 //@   replay scalar
@@ -61,6 +65,7 @@ package shachain
 //@
 //@ func (e *element) isEqual
 //@   props C06
+//@   bounds-safe
 //@   ensures result ==> e.index == e2.index && ret(IsEqual)
 //@   site call IsEqual: assert arg(0) == addr(e.hash) && arg(1) == addr(e2.hash)
 //@   modifies nothing
@@ -114,15 +119,18 @@ package shachain
 //@
 //@ func NewRevocationProducer
 //@   props C06
+//@   bounds-safe
 //@   ensures result != nil && result.root != nil && result.root.index == 0
 //@
 //@ func NewRevocationProducerFromBytes
 //@   props C06
+//@   bounds-safe
 //@   ensures result1 == nil ==> result0 != nil && result0.root != nil && result0.root.index == 0 && retn(NewHash, 1) == nil
 //@   site call NewHash: assert arg(0) == data
 //@
 //@ func (p *RevocationProducer) AtIndex
 //@   props C06
+//@   bounds-safe
 //@   requires p != nil && v < 1<<48
 //@   ensures result1 == nil ==> retn(derive, 1) == nil && result0 == addr(retn(derive, 0).hash)
 //@   site call derive: assert arg(0) == p.root && arg(1) == ret(newIndex)
@@ -130,6 +138,7 @@ package shachain
 //@
 //@ func (p *RevocationProducer) Encode
 //@   props C06
+//@   bounds-safe
 //@   requires p != nil
 //@   site call Write: assert arg(1) == sliceof(p.root.hash)
 //@
